@@ -111,13 +111,30 @@ void _ZSt24__throw_invalid_argumentPKc(void* m) { vx_throw_std(TI_INVARG); }
 
 /* ---- bounded byte helpers ---- */
 #define VX_SSO 15
+/* instances built with short_strings (the default) never need the heap path of the string model: reaching it is a
+ * loud harness error ("model bound"), and symbolic execution does not have to walk its loops */
+#ifdef VX_SHORT_ONLY
+#define VX_LONG(n) do { __CPROVER_assert((n) <= VX_SSO, "model bound: string longer than 15 bytes in a short_strings instance"); __CPROVER_assume((n) <= VX_SSO); } while (0)
+#else
+#define VX_LONG(n) do { } while (0)
+#endif
+#ifdef VX_SHORT_ONLY
+#define VX_NOLONG(ret) do { __CPROVER_assert(0, "model bound: long-string path reached in a short_strings instance"); __CPROVER_assume(0); return ret; } while (0)
+#else
+#define VX_NOLONG(ret) do { } while (0)
+#endif
 /* every loop below is constant-trip (16) unless named *_long */
 static void vx_cpy_long(char* d, const char* s, uint64_t n) { for (uint64_t i = 0; i < n; ++i) d[i] = s[i]; }
 uint64_t vx_strlen(const char* s) {
   for (int i = 0; i < 16; ++i) if (s[i] == 0) return (uint64_t)i;
+  VX_LONG(16);
+#ifdef VX_SHORT_ONLY
+  return 16;
+#else
   uint64_t n = 16;
   while (s[n]) ++n;           /* long path: vx_strlen.1 */
   return n;
+#endif
 }
 uint64_t strlen(const char* s) { return vx_strlen(s); }
 int vx_memcmp(const unsigned char* a, const unsigned char* b, uint64_t n) {
@@ -126,6 +143,7 @@ int vx_memcmp(const unsigned char* a, const unsigned char* b, uint64_t n) {
     for (int i = 15; i >= 0; --i) if ((uint64_t)i < n && a[i] != b[i]) r = a[i] < b[i] ? -1 : 1;
     return r;
   }
+  VX_NOLONG(0);
   for (uint64_t i = 0; i < n; ++i) if (a[i] != b[i]) return a[i] < b[i] ? -1 : 1;   /* long path */
   return 0;
 }
@@ -143,12 +161,14 @@ int strncmp(const char* a, const char* b, size_t n) {
 char* strchr(const char* s, int c) {
   uint64_t n = vx_strlen(s);
   if (n <= 15) { const char* r = 0; for (int i = 15; i >= 0; --i) if ((uint64_t)i <= n && s[i] == (char)c) r = s + i; return (char*)r; }
+  VX_NOLONG(0);
   for (uint64_t i = 0; i <= n; ++i) if (s[i] == (char)c) return (char*)s + i;
   return 0;
 }
 char* strrchr(const char* s, int c) {
   uint64_t n = vx_strlen(s);
   if (n <= 15) { const char* r = 0; for (int i = 0; i < 16; ++i) if ((uint64_t)i <= n && s[i] == (char)c) r = s + i; return (char*)r; }
+  VX_NOLONG(0);
   const char* r = 0; for (uint64_t i = 0; i <= n; ++i) if (s[i] == (char)c) r = s + i;
   return (char*)r;
 }
@@ -159,10 +179,13 @@ struct vx_str { char* p; uint64_t len; union { char local[16]; uint64_t cap; } u
 #define NPOS 0xffffffffffffffffUL
 static uint64_t vx_str_cap(struct vx_str* s) { return s->p == s->u.local ? 15 : s->u.cap; }
 static void vx_str_init(struct vx_str* s, const char* src, uint64_t n) {
+  VX_LONG(n);
+#ifndef VX_SHORT_ONLY
   if (n > VX_SSO) {
     s->p = (char*)malloc(n + 1); __CPROVER_assume(s->p != 0); s->u.cap = n;
     vx_cpy_long(s->p, src, n); s->p[n] = 0; s->len = n; return;
   }
+#endif
   s->p = s->u.local;
   for (int i = 0; i < 16; ++i) s->u.local[i] = ((uint64_t)i < n) ? src[i] : 0;
   s->len = n;
@@ -170,6 +193,10 @@ static void vx_str_init(struct vx_str* s, const char* src, uint64_t n) {
 /* replace [pos, pos+del) of s by ins[0..m): the one mutation primitive */
 static void vx_splice(struct vx_str* s, uint64_t pos, uint64_t del, const char* ins, uint64_t m) {
   uint64_t old = s->len, nl = old - del + m;
+  VX_LONG(nl);
+#ifdef VX_SHORT_ONLY
+  __CPROVER_assume(s->p == s->u.local);
+#endif
   if (s->p == s->u.local && nl <= VX_SSO) {
     char t[16];
     for (int i = 0; i < 16; ++i) {
@@ -179,6 +206,9 @@ static void vx_splice(struct vx_str* s, uint64_t pos, uint64_t del, const char* 
     for (int i = 0; i < 16; ++i) s->u.local[i] = t[i];
     s->len = nl; return;
   }
+#ifdef VX_SHORT_ONLY
+  return;
+#endif
   /* long path */
   uint64_t cap = vx_str_cap(s), nc = nl <= cap ? cap : (nl < 2 * cap ? 2 * cap : nl);
   char* np = (char*)malloc(nc + 1); __CPROVER_assume(np != 0);
@@ -193,6 +223,7 @@ static void vx_str_set(struct vx_str* s, const char* src, uint64_t n) { vx_splic
 static void vx_str_append(struct vx_str* s, const char* src, uint64_t n) { vx_splice(s, s->len, 0, src, n); }
 static void vx_str_fill(struct vx_str* s, uint64_t pos, uint64_t del, uint64_t n, char c) {
   if (n <= 16) { char t[16]; for (int i = 0; i < 16; ++i) t[i] = c; vx_splice(s, pos, del, t, n); return; }
+  VX_NOLONG();
   char* t = (char*)malloc(n); __CPROVER_assume(t != 0);
   for (uint64_t i = 0; i < n; ++i) t[i] = c;   /* long path */
   vx_splice(s, pos, del, t, n); free(t);
@@ -207,16 +238,28 @@ void _ZNSt7__cxx1112basic_stringIcSt11char_traitsIcESaIcEEC2EPKcmRKS3_(void* s, 
 void _ZNSt7__cxx1112basic_stringIcSt11char_traitsIcESaIcEEC1ERKS4_(void* s, void* o) { vx_str_init(S(s), S(o)->p, S(o)->len); }
 void _ZNSt7__cxx1112basic_stringIcSt11char_traitsIcESaIcEEC2ERKS4_(void* s, void* o) { vx_str_init(S(s), S(o)->p, S(o)->len); }
 static void vx_str_move(struct vx_str* s, struct vx_str* o) {
+#ifdef VX_SHORT_ONLY
+  __CPROVER_assume(o->p == o->u.local);
+#endif
+#ifdef VX_SHORT_ONLY
+  { s->p = s->u.local; for (int i = 0; i < 16; ++i) s->u.local[i] = o->u.local[i]; s->len = o->len; }
+#else
   if (o->p == o->u.local) { s->p = s->u.local; for (int i = 0; i < 16; ++i) s->u.local[i] = o->u.local[i]; s->len = o->len; }
   else { s->p = o->p; s->len = o->len; s->u.cap = o->u.cap; o->p = o->u.local; }
+#endif
   o->len = 0; o->u.local[0] = 0;
 }
 void _ZNSt7__cxx1112basic_stringIcSt11char_traitsIcESaIcEEC1EOS4_(void* s, void* o) { vx_str_move(S(s), S(o)); }
 void _ZNSt7__cxx1112basic_stringIcSt11char_traitsIcESaIcEEC2EOS4_(void* s, void* o) { vx_str_move(S(s), S(o)); }
 void _ZNSt7__cxx1112basic_stringIcSt11char_traitsIcESaIcEEC1EmcRKS3_(void* s, uint64_t n, uint8_t c, void* a) { vx_str_init(S(s), "", 0); vx_str_fill(S(s), 0, 0, n, (char)c); }
 void _ZNSt7__cxx1112basic_stringIcSt11char_traitsIcESaIcEEC2EmcRKS3_(void* s, uint64_t n, uint8_t c, void* a) { vx_str_init(S(s), "", 0); vx_str_fill(S(s), 0, 0, n, (char)c); }
+#ifdef VX_SHORT_ONLY
+void _ZNSt7__cxx1112basic_stringIcSt11char_traitsIcESaIcEED1Ev(void* s) { }
+void _ZNSt7__cxx1112basic_stringIcSt11char_traitsIcESaIcEED2Ev(void* s) { }
+#else
 void _ZNSt7__cxx1112basic_stringIcSt11char_traitsIcESaIcEED1Ev(void* s) { if (S(s)->p != S(s)->u.local) free(S(s)->p); }
 void _ZNSt7__cxx1112basic_stringIcSt11char_traitsIcESaIcEED2Ev(void* s) { if (S(s)->p != S(s)->u.local) free(S(s)->p); }
+#endif
 void* _ZNKSt7__cxx1112basic_stringIcSt11char_traitsIcESaIcEE5c_strEv(void* s) { return S(s)->p; }
 void* _ZNKSt7__cxx1112basic_stringIcSt11char_traitsIcESaIcEE4dataEv(void* s) { return S(s)->p; }
 uint64_t _ZNKSt7__cxx1112basic_stringIcSt11char_traitsIcESaIcEE4sizeEv(void* s) { return S(s)->len; }
@@ -234,8 +277,9 @@ void* _ZNSt7__cxx1112basic_stringIcSt11char_traitsIcESaIcEE2atEm(void* s, uint64
 void _ZNSt7__cxx1112basic_stringIcSt11char_traitsIcESaIcEE5clearEv(void* s) { S(s)->len = 0; S(s)->p[0] = 0; }
 void _ZNSt7__cxx1112basic_stringIcSt11char_traitsIcESaIcEE7reserveEm(void* s, uint64_t n) {
   if (n <= vx_str_cap(S(s))) return;
+  VX_LONG(n);
   char* np = (char*)malloc(n + 1); __CPROVER_assume(np != 0);
-  if (S(s)->len <= 15) { for (int i = 0; i < 16; ++i) np[i] = ((uint64_t)i <= S(s)->len) ? S(s)->p[i] : 0; } else vx_cpy_long(np, S(s)->p, S(s)->len + 1);
+  if (S(s)->len <= 15) { for (int i = 0; i < 16; ++i) np[i] = ((uint64_t)i <= S(s)->len) ? S(s)->p[i] : 0; } else { VX_NOLONG(); vx_cpy_long(np, S(s)->p, S(s)->len + 1); }
   if (S(s)->p != S(s)->u.local) free(S(s)->p);
   S(s)->p = np; S(s)->u.cap = n;
 }
@@ -290,7 +334,7 @@ void* _ZNSt7__cxx1112basic_stringIcSt11char_traitsIcESaIcEE6insertEmmc(void* s, 
 void* _ZNSt7__cxx1112basic_stringIcSt11char_traitsIcESaIcEE6insertEmRKS4_(void* s, uint64_t pos, void* o) {
   if (pos > S(s)->len) { vx_throw_std(TI_OOR); return s; }
   if (S(o)->len <= 16) { char t[16]; for (int i = 0; i < 16; ++i) t[i] = (uint64_t)i < S(o)->len ? S(o)->p[i] : 0; vx_splice(S(s), pos, 0, t, S(o)->len); }
-  else vx_splice(S(s), pos, 0, S(o)->p, S(o)->len);
+  else { VX_NOLONG(s); vx_splice(S(s), pos, 0, S(o)->p, S(o)->len); }
   return s; }
 void* _ZNSt7__cxx1112basic_stringIcSt11char_traitsIcESaIcEE5eraseEN9__gnu_cxx17__normal_iteratorIPKcS4_EE(void* s, void* it) {
   uint64_t pos = (uint64_t)((char*)it - S(s)->p);
@@ -298,6 +342,7 @@ void* _ZNSt7__cxx1112basic_stringIcSt11char_traitsIcESaIcEE5eraseEN9__gnu_cxx17_
 uint64_t _ZNKSt7__cxx1112basic_stringIcSt11char_traitsIcESaIcEE4findEcm(void* s, uint8_t c, uint64_t pos) {
   uint64_t n = S(s)->len;
   if (n <= 16) { uint64_t r = NPOS; for (int i = 15; i >= 0; --i) if ((uint64_t)i >= pos && (uint64_t)i < n && S(s)->p[i] == (char)c) r = (uint64_t)i; return r; }
+  VX_NOLONG(NPOS);
   for (uint64_t i = pos; i < n; ++i) if (S(s)->p[i] == (char)c) return i;
   return NPOS; }
 static uint64_t vx_str_find(struct vx_str* s, const char* q, uint64_t m, uint64_t pos) {
@@ -311,6 +356,7 @@ static uint64_t vx_str_find(struct vx_str* s, const char* q, uint64_t m, uint64_
     }
     return r;
   }
+  VX_NOLONG(NPOS);
   for (uint64_t i = pos; i + m <= n; ++i) if (vx_memcmp((const unsigned char*)s->p + i, (const unsigned char*)q, m) == 0) return i;
   return NPOS; }
 uint64_t _ZNKSt7__cxx1112basic_stringIcSt11char_traitsIcESaIcEE4findERKS4_m(void* s, void* o, uint64_t pos) { return vx_str_find(S(s), S(o)->p, S(o)->len, pos); }
@@ -318,6 +364,7 @@ uint64_t _ZNKSt7__cxx1112basic_stringIcSt11char_traitsIcESaIcEE4findEPKcm(void* 
 uint64_t _ZNKSt7__cxx1112basic_stringIcSt11char_traitsIcESaIcEE12find_last_ofEcm(void* s, uint8_t c, uint64_t pos) {
   uint64_t n = S(s)->len; if (n == 0) return NPOS; if (pos >= n) pos = n - 1;
   if (n <= 16) { uint64_t r = NPOS; for (int i = 0; i < 16; ++i) if ((uint64_t)i <= pos && S(s)->p[i] == (char)c) r = (uint64_t)i; return r; }
+  VX_NOLONG(NPOS);
   for (uint64_t i = pos + 1; i > 0; --i) if (S(s)->p[i - 1] == (char)c) return i - 1;
   return NPOS; }
 void _ZNSaIcEC1Ev(void* a) { }
